@@ -286,6 +286,13 @@ func runC19(c *core.Ctx) {
 	c.Doc("list-new-order", 1, "list.New prepends seq[i] for i = len-1 .. 0")
 	c.Doc("fold", 1, "Fold: x := Empty(); while !IsEmpty(s) { x = Combine(x, Head(s)); s = Tail(s) }")
 
+	// the monoid a caller builds with the library's own constructors is the one Fold folds with: From(e, op).Empty() is e and
+	// its Combine is op itself - not a method of the instance type that shadows the promoted one (shared with C10 / C17)
+	c.Doc("monoid-literal", 2, "monoid.From/FromOp build {Semigroup: combine, empty: empty}")
+	c.Doc("monoid-empty", 1, "Empty returns the stored element")
+	c.Doc("monoid-combine-promoted", 1, "Combine resolves to the stored semigroup's Combine")
+	monoidRules(c)
+
 	c.Doc("loops-progress", 1, "no loop of the packages can go round without changing anything")
 	loopsProgress(c, "loops-progress", "internal/seq", "internal/seq/list", "internal/seq/slice")
 	newLenProved = nil
